@@ -27,6 +27,8 @@ Inductive gclass :=
 | GShapeSoft               (* shapes equal only up to the (n) / (n,1) / (1,n) identification *)
 | GModeUnsupported         (* option mode the operation mishandles (MinBetween/MaxBetween unsafe, incr) *)
 | GScalarShaped            (* rank-0 tensor operand (package functions route it to the scalar form) *)
+| GReduceDefault           (* a reduction step through the "default" kernel (neither first nor last axis) with axis <> 1 and extent <> 2 *)
+| GFlatRawWindow           (* whole-tensor (all-axes) reduction over the raw storage window of a tensor whose window is not its logical content *)
 | GOther.
 
 Definition slice_count_zero (s : slice) (dim : Z) : bool :=
@@ -154,4 +156,22 @@ Definition guard_elementwise (ops : list dense) (dst : option dense) (rsize : Z)
          | None =>
            if existsb (fun x => is_cm (ord (d_ap x))) ops then GOrderMix else GOk
          end
+  end.
+
+(* does the axis loop of reduce() go through reduceDefault with an axis other than 1 and a reduced
+   extent other than 2 (finding F34)? *)
+Fixpoint remove_nth_z (n : nat) (l : list Z) : list Z :=
+  match l, n with
+  | [], _ => []
+  | _ :: r, O => r
+  | x :: r, S n' => x :: remove_nth_z n' r
+  end.
+Fixpoint uses_bad_default (axes : list Z) (reduced : Z) (sh : list Z) : bool :=
+  match axes with
+  | [] => false
+  | ax :: rest =>
+    let axis := ax - reduced in
+    let last := zlen sh - 1 in
+    ((0 <? axis) && (axis <? last) && negb (axis =? 1) && negb (znth 0 sh axis =? 2))
+    || uses_bad_default rest (reduced + 1) (remove_nth_z (Z.to_nat axis) sh)
   end.
